@@ -62,7 +62,7 @@ func tier(t string) tiers {
 	if t == "thorough" {
 		return tiers{K: 3000, SampleK: 300, Budget: 20000, T: 600, SampleT: 60, Gen: 6000, MaxOut: 4000, Compose: 4000}
 	}
-	return tiers{K: 300, SampleK: 40, Budget: 3000, T: 40, SampleT: 12, Gen: 400, MaxOut: 1000, Compose: 300}
+	return tiers{K: 800, SampleK: 60, Budget: 5000, T: 100, SampleT: 20, Gen: 2000, MaxOut: 1000, Compose: 1500}
 }
 
 // ---- workload -------------------------------------------------------------
